@@ -79,7 +79,7 @@ func TestVerifC09_ed25519(t *testing.T) {
 			return verifmc.DecResult{}
 		}})
 	r.RequireCounter("in:flip", 2*4*250)
-	r.RequireCounter("in:field-overflow", 2*38)
+	r.RequireCounter("in:field-overflow", 60)
 	r.RequireCounter("in:torsion", 24)
 	r.RequireCounter("in:alias", 2*4)
 	r.RequireCounter("in:valid-lib", 2*5)
